@@ -588,7 +588,9 @@ P_MASKS = ['*!*@*.isp.example', '*!*@home.alice.example', 'n?!*@*.example', 'nm!
            '*!*@dyn?.isp.example', 'NM!UM@DYN7.ISP.EXAMPLE', 'n{!*@*.example', '*!*@*', 'nq!*@*']
 P_PWS = ['pw1', 'pw2', 'wrong']
 # other clients that carry a nick of P_PREF, and the nicks the server announces
-P_TWINS = ['na!ux@cafe.example', 'NA!ua@home.alice.example', 'nm!um@dyn8.isp.example']
+P_TWINS = ['na!ux@cafe.example', 'NA!ua@home.alice.example', 'nm!um@dyn8.isp.example', 'nk!uk@relay@host.example', 'nk!!uk@host.example']
+# names that are user hostmasks (nick!user@host with separators inside the parts too): refused as account names
+P_HMNAMES = ['x!y@z', 'nk!uk@relay@host.example', 'nk!!uk@host.example', 'a!b!c@d']
 P_NICKS = ['na', 'nz', 'NM', 'nb', 'n{', 'n[']
 
 def classify(texts):
@@ -650,7 +652,7 @@ def gen_pcmd(r, impl):
         # mostly somebody the bot has seen (a renamed client keeps talking under its new hostmask)
         return ('p_nick', r.choice(known + P_TWINS) if r.random() < 0.85 else p, r.choice(P_NICKS))
     if x < 0.14 or not impl.U.users:
-        return ('p_register', p, r.choice(P_NAMES) if r.random() < 0.9 else 'x!y@z', r.choice(P_PWS[:2]))
+        return ('p_register', p, r.choice(P_NAMES) if r.random() < 0.85 else r.choice(P_HMNAMES), r.choice(P_PWS[:2]))
     if x < 0.40:
         return ('p_identify', p, r.choice(names) if r.random() < 0.9 else r.choice(P_NAMES + ['nosuch', 'a!b@c']), r.choice(P_PWS))
     if x < 0.46:
@@ -670,7 +672,7 @@ def gen_pcmd(r, impl):
     if x < 0.83:
         return ('p_hostrm', p, None, 'all', '')
     if x < 0.87:
-        return ('p_changename', p, r.choice(names), r.choice(P_NAMES + ['dora', 'x!y@z', 'nm!um@dyn7.isp.example']), r.choice(P_PWS))
+        return ('p_changename', p, r.choice(names), r.choice(P_NAMES + ['dora', 'nm!um@dyn7.isp.example'] + P_HMNAMES), r.choice(P_PWS))
     if x < 0.92:
         return ('p_tick', r.choice([1, 5, 9, 10, 11, 30, 60, 61]))
     return ('p_whoami', p)
@@ -688,6 +690,10 @@ P_CORPUS = [
  [('reset', 0), ('p_register', P_PREF[0], 'alice', 'pw1'), ('p_changename', P_PREF[0], 'alice', 'x!y@z', 'pw1'),
   ('p_register', P_PREF[2], 'bobby', 'pw2'), ('p_changename', P_PREF[2], 'bobby', 'x!y@z', 'pw2'), ('p_identify', P_PREF[3], 'alice', 'pw1'),
   ('p_identify', P_PREF[3], 'x!y@z', 'pw1')],
+ # a prefix with a second separator inside is a user hostmask as well: no account name, looked up as a hostmask (seeded C04-r5m2)
+ [('reset', 0), ('p_register', P_PREF[0], 'nk!uk@relay@host.example', 'pw1'), ('p_whoami', 'nk!uk@relay@host.example'),
+  ('p_register', P_PREF[0], 'alice', 'pw1'), ('p_changename', P_PREF[0], 'alice', 'nk!!uk@host.example', 'pw1'), ('p_whoami', 'nk!!uk@host.example'),
+  ('p_register', 'nk!uk@relay@host.example', 'bobby', 'pw2'), ('p_whoami', 'nk!uk@relay@host.example')],
  # Irc.doNick follows a login through a nick change: only the NICK sender's own login moves (seeded change C04-r2m3)
  [('reset', 0), ('p_follow', 1), ('p_register', P_PREF[0], 'alice', 'pw1'), ('p_tick', 1),
   ('p_identify', 'na!ux@cafe.example', 'alice', 'pw1'), ('p_tick', 1), ('p_identify', P_PREF[0], 'alice', 'pw1'),
@@ -697,11 +703,21 @@ P_CORPUS = [
  # … compared under IRC case rules: the login was made as NA!…, the NICK message comes from na!…
  [('reset', 0), ('p_follow', 1), ('p_register', P_PREF[0], 'alice', 'pw1'), ('p_identify', 'NA!ua@home.alice.example', 'alice', 'pw1'),
   ('p_nick', P_PREF[0], 'nz'), ('p_whoami', 'nz!ua@home.alice.example'), ('p_whoami', 'NA!ua@home.alice.example')],
+ # a followed login lands on a hostmask that another account's mask matches and that was looked up before (seeded C04-r5m3)
+ [('reset', 0), ('p_follow', 1), ('p_register', P_PREF[0], 'alice', 'pw1'), ('p_register', P_PREF[2], 'bobby', 'pw2'),
+  ('p_hostadd', P_PREF[2], 'bobby', 'nz!*@*.example', 'pw2'), ('p_identify', P_PREF[0], 'alice', 'pw1'), ('p_whoami', 'nz!ua@home.alice.example'),
+  ('p_nick', P_PREF[0], 'nz'), ('p_whoami', 'nz!ua@home.alice.example'), ('p_whoami', 'nz!ua@home.alice.example')],
  # the same messages with the option off: nothing moves
  [('reset', 0), ('p_register', P_PREF[0], 'alice', 'pw1'), ('p_hostrm', P_PREF[0], None, P_PREF[0], ''),
   ('p_identify', P_PREF[0], 'alice', 'pw1'), ('p_nick', P_PREF[0], 'nz'), ('p_whoami', 'nz!ua@home.alice.example'),
   ('p_whoami', P_PREF[0]), ('p_identify', 'nb!ub@b.example', 'nz', 'pw1')],
 ]
+
+def o_split(p):
+    """(nick, user, host) of nick!user@host as the protocol reads it: the host follows the last @, the user the last ! before it"""
+    rest, host = p.rsplit('@', 1)
+    nick, user = rest.rsplit('!', 1)
+    return nick, user, host
 
 def n_matching(impl, p):
     return sum(1 for u in impl.U.users.values()
@@ -762,7 +778,7 @@ def run_phistory(impl, r, n, kind, fixed=None):
                    if any(o_glob(str(m), p_) for m in u.hostmasks) or any(h == p_ for (t, h) in impl.live_auth(u))]
             moved = set()
             if follow and len(rec) == 1 and o_is_hostmask(p_) and nn:
-                i = rec[0]; newhm = nn + p_[p_.index('!'):]
+                i = rec[0]; newhm = '%s!%s@%s' % ((nn,) + o_split(p_)[1:])
                 held = set(impl.live_auth(impl.U.users[i]))
                 moved = set((i, t, newhm, o) for (j, t, h, o) in glog if j == i and o_lower(h) == o_lower(p_) and (t, h) in held)
             del impl.dup_lookups[:]
@@ -789,7 +805,7 @@ def run_phistory(impl, r, n, kind, fixed=None):
                 else:
                     seen = impl.b.irc.state.nicksToHostmasks
                     # (the bot notes the sender of the command before it runs it)
-                    hm = c[1] if o_lower(c[2]) == o_lower(c[1].split('!')[0]) else (seen.get(c[2]) if c[2] in seen else None)
+                    hm = c[1] if o_lower(c[2]) == o_lower(o_split(c[1])[0]) else (seen.get(c[2]) if c[2] in seen else None)
                     if hm is not None:
                         m_ = [i for i, u in impl.U.users.items()
                               if any(o_glob(str(x), hm) for x in u.hostmasks) or any(h == hm for (t, h) in impl.live_auth(u))]
@@ -854,7 +870,7 @@ def run_phistory(impl, r, n, kind, fixed=None):
                 for (j, t2, h2, o) in glog:
                     if (j, t2, h2) == (i, t, h) and h2 != o:
                         # a followed login: only ever with the option on, and only the nick may differ
-                        if not ever_followed or o_lower(h2.split('!', 1)[1]) != o_lower(o.split('!', 1)[1]):
+                        if not ever_followed or [o_lower(x) for x in o_split(h2)[1:]] != [o_lower(x) for x in o_split(o)[1:]]:
                             fail('command %d %r: the login (t=%d, %s) of account %d was moved from %s' % (len(cmds) - 1, c, t, h2, i, o))
             if u.secure:
                 for (t, h) in impl.live_auth(u):
@@ -863,6 +879,11 @@ def run_phistory(impl, r, n, kind, fixed=None):
                         fail('command %d %r: the secure account %d (%s) accepted a login from %s, which matches none of its masks'
                              % (len(cmds) - 1, c, i, u.name, h))
         if k == 'p_whoami' and out.startswith('iam'):
+            both = [i for i, u in impl.U.users.items()
+                    if any(o_glob(str(m), c[1]) for m in u.hostmasks) or any(h == c[1] for (t, h) in impl.live_auth(u))]
+            if len(both) > 1:
+                fail('command %d: %s is answered as %s although the accounts %r all match that hostmask (by mask or by login): '
+                     'a sender never resolves to one of two accounts' % (len(cmds) - 1, c[1], wire.dec(out.split('\t')[1]), both))
             nm = wire.dec(out.split('\t')[1])
             who = [u for u in impl.U.users.values() if u.name == nm]
             if who:
